@@ -56,6 +56,8 @@ structure Ctx where
   ids : Nat := 0
   calls : Nat := 0
   builds : List Token := []     -- ghost: every token handed to `build`, in order (C18)
+  reads : List Nat := []        -- ghost: line numbers of the tokens the main loop read, in order
+  unexpected : List Nat := []   -- ghost: line numbers of the tokens that reached an error tail
 deriving Inhabited
 
 inductive Abort
@@ -165,6 +167,7 @@ def tryBranches (D : List Dialect) (T : Table) (stop : Bool) (row : StateRow) :
     List Branch → Token → PM Nat
   | [], t => do
     let e := unexpectedErr row t
+    modify fun c => { c with unexpected := c.unexpected ++ [t.lineNo] }
     if stop then throw (.single e)
     else do addError T.errorCap e; pure row.errTarget
   | b :: bs, t => do
@@ -193,6 +196,7 @@ def parseLoop (D : List Dialect) (T : Table) (stop : Bool) : Nat → Nat → PM 
   | 0, _ => throw .fuel
   | fuel + 1, state => do
     let t ← readToken
+    modify fun c => { c with reads := c.reads ++ [t.lineNo] }
     let state' ← matchToken D T stop state t
     if t.eof then pure state' else parseLoop D T stop fuel state'
 
